@@ -149,7 +149,7 @@ class C07(CheckBase):
 
     def gen_command(self, rng, image):
         hostile = rng.chance(0.45)
-        cmd = rng.choice(COMMANDS + ['bogus-command'] if hostile else COMMANDS)
+        cmd = rng.choice(COMMANDS + ['bogus-command', 'info', 'info'] if hostile else COMMANDS)     # (info takes wildcards)
         if image.get('slots') and rng.chance(0.3):
             # an MMB slot that is unformatted/invalid/unknown has a drive too: address its very first and last sectors
             odd = sorted(k for k, v in image['slots'].items() if v[1] is None) or sorted(image['slots'])
@@ -161,6 +161,9 @@ class C07(CheckBase):
         else:
             files = []
         def name():
+            if hostile and rng.chance(0.25):
+                # wildcards are turned into regular expressions: characters that mean something there, at either end
+                return rng.choice(['^', 'A^', '*^', ':0.$.*^', '$.A^', '$', 'a$', '$.a\\', '*\\', '$.(', '$.*)', '$.[a', '$.a]', '$.{', '$.a{2', '$.+*', '#^#'])
             if hostile and rng.chance(0.7):
                 return rng.choice(HOSTILE_NAMES)
             if files:
@@ -211,7 +214,7 @@ class C07(CheckBase):
         if rng.chance(0.2):
             g += ['--drive', rng.choice(['0', '1', '2', '0A', '0B', '3', '-1', '99999999999', 'x', ''])]
         if rng.chance(0.15):
-            g += ['--dir', rng.choice(['$', 'A', '', 'AB', '.', '*'])]
+            g += ['--dir', rng.choice(['$', 'A', '', 'AB', '.', '*', '^', '\\', '['])]
         if rng.chance(0.1):
             g += ['--ui', rng.choice(['acorn', 'watford', 'opus', 'bogus', ''])]
         if rng.chance(0.1):
